@@ -3,6 +3,7 @@ import PgModel.Json
 import PgModel.Gen
 import PgGen.C15Quirks
 import PgModel.Nsga2
+import PgModel.GenOps
 open Pg Pg.C15
 
 structure EvoOps where
@@ -10,6 +11,18 @@ structure EvoOps where
   children : Nat
   update : String
   keep : Nat
+
+def rkOfJ : J → Option Pg.C14.RK
+  | .str "choice" => some .choice | .str "randint" => some .randint | .str "sample" => some .sample
+  | .str "choices" => some .choices | .str "shuffle" => some .shuffle
+  | _ => none
+
+/-- recorded PRNG draws (harness.c14.RecRandom log entries; index draws only) -/
+def evOfJ : J → Option Pg.C14.Ev
+  | .arr [.str "idx", k, .int n, .int i] => do pure (.idx (← rkOfJ k) n.toNat i.toNat)
+  | .arr [.str "idxs", k, .int n, .int c, .arr is] => do
+      pure (.idxs (← rkOfJ k) n.toNat c.toNat (← is.mapM J.asNat?))
+  | _ => none
 
 def bad (msg : String) : J := .obj [("bad_request", .str msg)]
 
@@ -176,11 +189,25 @@ def handle (j : J) : J :=
           pure (step, xs.filterMap J.asNat?)
       | _ => []
     let isNsga := ops'.update == "nsga2"
+    -- recorded draws of the real operators, one oracle segment per `_evolve` call (keyed by step)
+    let dims := ((j.getArr? "dims").getD []).filterMap J.asNat?
+    let evTable : List (Nat × List Pg.C14.Ev) := match j.get? "events_by_step" with
+      | some (.obj kvs) => kvs.filterMap fun (k, v) => do
+          let step ← k.toNat?
+          let xs ← v.asArr?
+          pure (step, ← xs.mapM evOfJ)
+      | _ => []
+    let evAt (step : Nat) : List Pg.C14.Ev := ((evTable.find? (·.1 == step)).map (·.2)).getD []
     let repro : List Item → Nat → Nat → List Nat :=
       if ops'.repro == "table" then fun _ _ step => ((table.find? (·.1 == step)).map (·.2)).getD []
+      else if ops'.repro == "c14reg" then Ops.reproOf dims (Ops.regEvoRepro dims ops'.children) evAt
+      else if ops'.repro == "c14hill" then Ops.reproOf dims (Ops.hillClimbRepro dims ops'.children) evAt
       else reproOf n ops'
     let update : List Item → Nat → List Item :=
-      if isNsga then Nsga2.update nsga2Facts ops'.keep else updateOf ops'
+      if isNsga then Nsga2.update nsga2Facts ops'.keep
+      else if ops'.update == "c14last" then Ops.updateOf dims (Ops.regEvoUpdate ops'.keep)
+      else if ops'.update == "c14top" then Ops.updateOf dims Ops.hillClimbUpdate
+      else updateOf ops'
     let env : Env := { space := space, draw := draw, hash := fun hid d => if hid = 0 then d + 1000000 else d % hid,
                        repro := repro, update := update, q := currentQuirks }
     let obsJ := if isNsga then obsNsga else obsJ
